@@ -64,7 +64,7 @@ def render_amount(value, style, decimal='.'):
     return ('-' if neg else '') + body
 
 
-def gen_rows(rng, n, first_id=1, year=2025, allow_rich=False, neg_rate=0.2):
+def gen_rows(rng, n, first_id=1, year=2025, allow_rich=False, neg_rate=0.2, profile=None):
     rows = []
     for k in range(n):
         rid = first_id + k
@@ -99,11 +99,12 @@ def gen_rows(rng, n, first_id=1, year=2025, allow_rich=False, neg_rate=0.2):
             # a grouping separator in an odd place (an export that groups by hundreds, a hand-edited cell): dropped wherever it
             # stands, the value is what the digits say.  (Chosen by the row number, not drawn.)
             rows[-1]['style'] += '-odd'
-    if allow_rich and n >= 3 and rng.random() < 0.25:
+    if allow_rich and n >= 3 and (rng.random() < 0.25 or profile):
         # a statement in which nearly every description carries the same punctuation: apostrophe-wrapped words, semicolons, bars,
         # backslashes (what guesses a file's dialect from character frequencies would latch on to) - plus one cell that really
         # needs its quotes.  All of it is ordinary description text.
         prof = rng.choice(['apostrophes', 'apostrophes', 'semicolons', 'bars', 'backslashes', 'tabs'])
+        prof = profile or prof
         for r in rows:
             if rng.random() < 0.85:
                 tail = ' r%d' % r['id']
@@ -114,6 +115,8 @@ def gen_rows(rng, n, first_id=1, year=2025, allow_rich=False, neg_rate=0.2):
         k = rng.randrange(len(rows))
         tail = ' r%d' % rows[k]['id']
         rows[k]['desc'] = rng.choice(['ACME SUPPLY, INC', 'SMITH, JONES & CO', 'A, B']) + tail
+        for r in rows:
+            r['style'] = r['style'].replace('-odd', '')      # (that one cell stays the only one that needs its quotes)
     return rows
 
 
